@@ -496,6 +496,37 @@ type StrV struct {
 }
 
 type TupleV []Value
+
+// MapV: a map whose keys are constants (a lookup table built by a composite literal or by
+// constant-key stores); its entries are the cells "k:<key>" of Obj.  Obj == nil: the nil map.
+type MapV struct{ Obj *MemObj }
+
+// mapKey: the cell name of a constant map key (a known string or a constant integer).
+func (it *Interp) mapKey(v Value) (string, bool) {
+	switch k := v.(type) {
+	case StrV:
+		if k.Known {
+			return "k:s:" + k.S, true
+		}
+		if k.Sym {
+			// a text all of whose characters are constants
+			b := make([]byte, 0, len(k.Chars))
+			for _, c := range k.Chars {
+				cv, isC := c.IsConst()
+				if !isC || c.Hex != nil {
+					return "", false
+				}
+				b = append(b, byte(cv))
+			}
+			return "k:s:" + string(b), true
+		}
+	case BV:
+		if cv, isC := k.IsConst(); isC && !k.HasTop() {
+			return fmt.Sprintf("k:i:%d", cv), true
+		}
+	}
+	return "", false
+}
 type OpaqueV struct{ Why string }
 // FuncV: a function value; Bind holds the captured values of a closure (bound receiver of a method value).
 type FuncV struct {
@@ -1640,6 +1671,24 @@ func (it *Interp) step(st *state, ins ssa.Instruction, depth int) {
 				st.regs[x] = s.Chars[idx]
 				return
 			}
+			// the digit table "0123456789abcdef" at a symbolic index below 16: the lowercase hexadecimal
+			// character of that nibble (what encoding/hex produces)
+			if s, isStr := it.val(st, x.X).(StrV); isStr && s.Known && s.S == "0123456789abcdef" {
+				if iv, isBV := it.val(st, x.Index).(BV); isBV && !iv.HasTop() && iv.W >= 4 {
+					small := true
+					for k := 4; k < iv.W; k++ {
+						if iv.B[k] != it.T.zero {
+							small = false
+						}
+					}
+					if small {
+						c := it.topBV(8)
+						c.Hex = append([]*Node{}, iv.B[0:4]...)
+						st.regs[x] = c
+						return
+					}
+				}
+			}
 			it.unsup("symbolic index (value) in %s", x.Parent().String())
 			st.regs[x] = OpaqueV{"index"}
 			return
@@ -1795,7 +1844,46 @@ func (it *Interp) step(st *state, ins ssa.Instruction, depth int) {
 		st.regs[x] = fv
 	case *ssa.Phi:
 		// handled by run
+	case *ssa.MakeMap:
+		o := it.NewObj(fmt.Sprintf("map%d", it.nobj+1), false)
+		st.mem[o] = map[string]Value{}
+		st.regs[x] = MapV{Obj: o}
+	case *ssa.MapUpdate:
+		m, okM := it.val(st, x.Map).(MapV)
+		k, okK := it.mapKey(it.val(st, x.Key))
+		if !okM || m.Obj == nil || !okK {
+			it.unsup("map update with a key that is not a constant in %s", x.Parent().String())
+			return
+		}
+		if st.mem[m.Obj] == nil {
+			st.mem[m.Obj] = map[string]Value{}
+		}
+		st.mem[m.Obj][k] = it.val(st, x.Value)
 	case *ssa.Lookup:
+		if m, isMap := it.val(st, x.X).(MapV); isMap {
+			// a map with constant keys (a lookup table): present key -> its value, absent key -> zero value
+			k, okK := it.mapKey(it.val(st, x.Index))
+			mt, _ := x.X.Type().Underlying().(*types.Map)
+			if !okK || mt == nil {
+				it.unsup("lookup in a map with a key that is not a constant in %s", x.Parent().String())
+				st.regs[x] = OpaqueV{"lookup"}
+				return
+			}
+			var v Value
+			found := false
+			if m.Obj != nil {
+				v, found = st.mem[m.Obj][k]
+			}
+			if !found {
+				v = it.zeroValue(mt.Elem())
+			}
+			if x.CommaOk {
+				st.regs[x] = TupleV{v, it.constBV(uint64(b2i(found)), 1)}
+			} else {
+				st.regs[x] = v
+			}
+			return
+		}
 		s, ok1 := it.val(st, x.X).(StrV)
 		idx, ok2 := it.concreteInt(it.val(st, x.Index))
 		if ok1 && ok2 && s.Known && idx < len(s.S) {
